@@ -348,6 +348,12 @@ fn check_expect(w: &World, cl: &Classified, resp: &[u8], now: u64, tp: Tp) -> Ch
         return fail("response-qr", "QR clear in response");
     }
     let req = cl.msg.as_ref().unwrap();
+    // "Answered normally" / "gives NOTAUTH ...": every response is a response
+    // to the message as received, i.e. under the ID of its header - which a
+    // forwarder may have rewritten, so it need not be the TSIG original ID.
+    if r.msg.header.id != req.header.id {
+        return fail("response-id", format!("response ID {:#06x}, request header ID {:#06x} (TSIG original ID may differ)", r.msg.header.id, req.header.id));
+    }
     match cl.expect {
         Expect::OutOfScope(_) => unreachable!(),
         Expect::FormErrStructure => {
